@@ -12,7 +12,7 @@
 use std::collections::HashMap;
 use std::panic::{AssertUnwindSafe, catch_unwind};
 
-use rustc_ast::token::{Delimiter, Token, TokenKind};
+use rustc_ast::token::{Delimiter, IdentIsRaw, Token, TokenKind};
 use rustc_ast::tokenstream::{TokenStream, TokenStreamIter, TokenTree};
 use rustc_ast::{ast, ptr};
 use rustc_ast_pretty::pprust;
@@ -775,7 +775,7 @@ impl MacroArgParser {
         match iter.next() {
             Some(&TokenTree::Token(
                 Token {
-                    kind: TokenKind::Ident(name, _),
+                    kind: TokenKind::Ident(name, IdentIsRaw::No),
                     ..
                 },
                 _,
@@ -807,6 +807,7 @@ impl MacroArgParser {
     ) -> Option<()> {
         let mut buffer = String::new();
         let mut first = true;
+        let mut has_repeat_tok = false;
 
         // Parse '*', '+' or '?.
         for tok in iter {
@@ -837,13 +838,26 @@ impl MacroArgParser {
                     },
                     _,
                 ) => {
+                    has_repeat_tok = true;
                     break;
                 }
-                TokenTree::Token(ref t, _) => {
+                TokenTree::Token(
+                    Token {
+                        kind: TokenKind::DocComment(..),
+                        ..
+                    },
+                    _,
+                ) => return None,
+                // The separator of a repetition is a single token.
+                TokenTree::Token(ref t, _) if buffer.is_empty() => {
                     buffer.push_str(&pprust::token_to_string(t));
                 }
                 _ => return None,
             }
+        }
+
+        if !has_repeat_tok {
+            return None;
         }
 
         // There could be some random stuff between ')' and '*', '+' or '?'.
@@ -914,6 +928,12 @@ impl MacroArgParser {
                     },
                     _,
                 ) => {
+                    // A `$` that is followed neither by `name:fragment` nor by a repetition
+                    // (`$crate`, `$$`, `$name` on its own) is not understood here.
+                    if self.is_meta_var {
+                        return None;
+                    }
+
                     // We always want to add a separator before meta variables.
                     if !self.buf.is_empty() {
                         self.add_separator();
@@ -935,9 +955,20 @@ impl MacroArgParser {
                 ) if self.is_meta_var => {
                     self.add_meta_variable(&mut iter)?;
                 }
+                // A doc comment written on one line would swallow the tokens after it.
+                TokenTree::Token(
+                    Token {
+                        kind: TokenKind::DocComment(..),
+                        ..
+                    },
+                    _,
+                ) => return None,
                 TokenTree::Token(ref t, _) => self.update_buffer(t),
                 &TokenTree::Delimited(_dspan, _spacing, delimited, ref tts) => {
                     if !self.buf.is_empty() {
+                        if self.is_meta_var {
+                            return None;
+                        }
                         if next_space(&self.last_tok.kind) == SpaceState::Always {
                             self.add_separator();
                         } else {
@@ -959,6 +990,10 @@ impl MacroArgParser {
             }
 
             self.set_last_tok(&tok);
+        }
+
+        if self.is_meta_var {
+            return None;
         }
 
         // We are left with some stuff in the buffer. Since there is nothing
